@@ -18,7 +18,10 @@ pub fn gen_policy(rng: &mut Rng) -> Policy {
     Policy {
         stale: f(rng), unsafe_vrps: Filter::Accept,
         enable_bgpsec: rng.chance(3, 4), enable_aspa: rng.chance(3, 4),
-        limit_v4: None, limit_v6: None, max_ca_depth: 32,
+        // prefix-length limits now and then (they apply to the prefix length, not to the max length)
+        limit_v4: if rng.chance(1, 4) { Some(*rng.pick(&[16u8, 20, 24])) } else { None },
+        limit_v6: if rng.chance(1, 4) { Some(*rng.pick(&[48u8, 49, 50])) } else { None },
+        max_ca_depth: 32,
     }
 }
 
